@@ -108,6 +108,19 @@ var cfgC09 = reg(PropCfg{
 	MinClasses: map[string]int{"c09.registration": 30, "c09.non-owner-attempt": 5},
 })
 
+var cfgC06 = reg(PropCfg{
+	ID: "C06",
+	Profile: &Profile{Weights: map[string]int{WrkReg: 12, WrkRec: 22, WrkPur: 12, BcnReg: 10, BcnRec: 18, BcnPur: 10, BankSend: 6, EntRaise: 4, EntDecide: 8, StrCreate: 2},
+		MinBlocks: 6, MaxBlocks: 25, MaxTxs: 6, MaxOps: 4, PUpper: 3, PActor: 4, PNamed: 1, PFault: 3, PExec: 12, PGovParams: 8, PBadRef: 3, TinyLimits: false,
+		ValidParams: true, GovKinds: []string{ParamsWrk, ParamsBcn}, PCheck: 60,
+		FeeModes: []int{FeeExact, FeeExact, FeeExact, FeeNone, FeeLower, FeeHigher, FeeExactPlusExtraDenom, FeeOnlyExtraDenom, FeeLowerPlusExtraDenom, FeeHigherPlusExtraDenom, FeeFirstModuleOnly}},
+	Rule: "history containing >=1 CheckTx of a tx with >=1 WRKChain/BEACON operation and valid signature/sequence (reaches the fee decorators); distinct by scenario hash",
+	NonTrivial: func(w *World) bool { return w.Classes["c06.feeop-tx-reaching-fee-checks"] > 0 },
+	MinClasses: map[string]int{"c06.admitted-exact": 20, "c06.feemode.6": 5},
+	Assume:     []string{"messages inside a governance proposal are not counted (they do not execute in the submitting transaction)", "payer funds = bank balance + locked eFUND in the mempool (check) state before the CheckTx"},
+})
+
+func TestC06(t *testing.T) { RunProperty(t, cfgC06) }
 func TestC07(t *testing.T) { RunProperty(t, cfgC07) }
 func TestC08(t *testing.T) { RunProperty(t, cfgC08) }
 func TestC09(t *testing.T) { RunProperty(t, cfgC09) }
